@@ -466,6 +466,8 @@ def apply_op(rep, op, idx, run_seed, side_hook=None):
     if k in ('train_step', 'backward_only'):
         x, y = data_for(rep.cfg, run_seed, idx)
         m.zero_grad(set_to_none=True)
+        if side_hook is not None:
+            side_hook('pre_forward')
         out, aborted = run_forward(rep, x, op.get('abort'))
         if aborted:
             return {'aborted': 1}
@@ -474,6 +476,8 @@ def apply_op(rep, op, idx, run_seed, side_hook=None):
         loss = ((out - y) ** 2).mean()
         if op.get('cost', True):
             loss = loss + op.get('lam', 1e-3) * total_cost(m)
+        if side_hook is not None:
+            side_hook('pre_backward')
         if loss.requires_grad:
             loss.backward()
             if k == 'train_step':
